@@ -1,0 +1,15 @@
+//go:build verif
+
+// Machine-checked contracts for package object (comment-only file; see /verif/DESIGN.md).
+package object
+
+//@ -- parse: exactly five '/'-separated fields, every one an integer in int64 range
+//@ func (*ExtendedSpatialID).ResetExtendedSpatialID
+//@   props C03 C04 C05 C07 C08 C10 C11 C13 C15
+//@   requires s != nil
+//@   assigns s.hZoom s.x s.y s.vZoom s.z
+//@   ensures [ok-iff-wellformed] r0 == nil <==> isext(extendedSpatialID)
+//@   ensures [fields] r0 == nil ==> s.hZoom == val(fld(extendedSpatialID, 0)) && s.x == val(fld(extendedSpatialID, 1)) && s.y == val(fld(extendedSpatialID, 2)) && s.vZoom == val(fld(extendedSpatialID, 3)) && s.z == val(fld(extendedSpatialID, 4))
+//@   ensures [unchanged-on-error] r0 != nil ==> s.hZoom == old(s.hZoom) && s.x == old(s.x) && s.y == old(s.y) && s.vZoom == old(s.vZoom) && s.z == old(s.z)
+//@   loop 0 invariant len(convAttr) == $i && $i <= 5 && (forall k :: 0 <= k && k < $i ==> isnum(fld(extendedSpatialID, k)) && convAttr[k] == val(fld(extendedSpatialID, k)))
+//@ end
